@@ -61,6 +61,10 @@ class Resolver:
         d = self.d.single(l)
         if d is None or d[0] != 'assign':
             return None
+        if self.d.mut_borrows[l]:
+            # `let mut r = &x; f(&mut r)`: the reference variable itself can be redirected through the borrow
+            # (slice readers advance this way), so it is not a stable alias of its initial referent
+            return None
         rv = d[3]['rv']
         if rv['k'] in ('ref', 'rawptr'):
             return self.norm_place(rv['place'], depth + 1)
